@@ -107,7 +107,8 @@ Definition shape_of (op : bytes) (args : list val) : shape :=
   (* C01 *)
   if any_of op ["d.ymd"; "d.yo"; "d.isoywd"; "d.days"; "d.succ"; "d.pred"]%string then SOpt SDate
   else if any_of op ["d.pymd"; "d.pyo"; "d.pisoywd"; "d.pdays"; "d.psucc"; "d.ppred"; "ar.opdasg"; "d8.pnthwd"]%string then SDate
-  else if any_of op ["ar.opnasg"; "ar.stdasg"; "ar.opnoff"; "d8.ndt.opaddm"; "d8.ndt.opsubm"]%string then SNdt
+  else if any_of op ["ar.opnasg"; "ar.stdasg"; "ar.opnoff"; "d8.ndt.opaddm"; "d8.ndt.opsubm";
+                     "ndt.phms"; "ndt.phms_milli"; "ndt.phms_micro"; "ndt.phms_nano"]%string then SNdt
   else if any_of op ["ar.noff"; "ndt.twith"]%string then SOpt SNdt
   else if any_of op ["ar.zstdasg"; "ar.opzoff"; "z.opmonths"; "z.opdays"; "z.pfromlocal"]%string then SDtz
   else if any_of op ["ar.opzdiffref"; "td.opaddasg"; "td.opsubasg"; "td.sumv"]%string then STd
@@ -120,6 +121,7 @@ Definition shape_of (op : bytes) (args : list val) : shape :=
   else if op_is op "td.consts" then STup [STd; STd; STd; STd; STd]
   else if any_of op ["td.pweeks"; "td.pdays"; "td.phours"; "td.pminutes"; "td.pseconds"; "td.pmillis"]%string then STd
   else if op_is op "ts.consts" then STup [SDtz; SInt; SNdt; SDtz; SDtz; SNdt; SNdt; SInt; SInt]
+  else if op_is op "ts.defaults" then STup [SDate; STime; SNdt; SDtz; SDtz; SInt; SInt]
   (* C02 *)
   else if any_of op ["ts.from"; "ts.fromms"; "ts.fromus"; "ts.naive_opt"; "ts.naive_ms"; "ts.naive_us"; "ts.naive_ns"]%string
   then SOpt SNdt
@@ -218,11 +220,12 @@ Definition panicking_by_contract (op : bytes) : bool :=
              "t.addstd"; "t.substd"; "t.addstd_assign"; "t.substd_assign"; "t.addoff"; "t.suboff";
              "ndt.opadd"; "ndt.opsub"; "ndt.addstd"; "ndt.substd"; "ndt.addstd_assign"; "ndt.substd_assign"; "d8.opaddm"; "d8.opsubm";
              "td.opaddasg"; "td.opsubasg"; "td.sumv"; "ar.opdasg"; "ar.opnasg"; "ar.stdasg"; "ar.zstdasg"; "ar.opzdiffref";
-             "ar.opnoff"; "ar.opzoff"; "z.opmonths"; "z.opdays"; "d8.ndt.opaddm"; "d8.ndt.opsubm"]%string
+             "ar.opnoff"; "ar.opzoff"; "z.opmonths"; "z.opdays"; "d8.ndt.opaddm"; "d8.ndt.opsubm"; "lz.asg"]%string
   (* deprecated panicking constructors / accessors *)
   || any_of op ["ts.tzp"; "ts.tzmsp"; "ts.naive_from"; "ts.ofns"; "ts.naive_ofns";
                 "d.pymd"; "d.pyo"; "d.pisoywd"; "d.pdays"; "d.psucc"; "d.ppred";
                 "t.phms"; "t.phms_milli"; "t.phms_micro"; "t.phms_nano"; "t.pnsfm";
+                "ndt.phms"; "ndt.phms_milli"; "ndt.phms_micro"; "ndt.phms_nano";
                 "z.peast"; "z.pwest"; "z.pfromlocal"; "d8.pnthwd"]%string
   (* panicking by documentation, infallible by type (not entry points of C15); SubsecRound is defined
      over the Add / Sub operators of its carrier (operator arithmetic) *)
@@ -246,7 +249,7 @@ Definition check_value (op : bytes) (args : list val) (out : val) : verdict :=
 Definition judge (op : bytes) (args : list val) (out : val) : verdict :=
   if bad_args out then JSkip
   (* the Local zone and its cache are clock / environment dependent: not in C15's stream *)
-  else if any_of op ["lz.at"; "lz.uat"; "lz.loc"; "lz.uloc"; "lz.sel"; "lz.usel"; "lz.rt"; "lz.urt"; "lz.env"; "lc.history"]%string
+  else if any_of op ["lz.at"; "lz.uat"; "lz.loc"; "lz.uloc"; "lz.sel"; "lz.usel"; "lz.rt"; "lz.urt"; "lz.env"; "lz.conv"; "lz.asg"; "lc.history"]%string
   then JSkip
   else match out with
   | VPanic =>
